@@ -19,20 +19,26 @@ theorem storeClose_eq {m m1 m2 : Mem} {d d1 d2 : Disk} {order : List Nat}
     (h1 : priFlush m d = some (m1, d1)) (h2 : idxFlush m1 d1 order = (m2, d2)) :
     ∃ fr, storeClose { disk := d, mem := some m } order =
       some { disk := { d2 with snap := some ⟨8 * 2 ^ m2.bits, m2.buckets.filter (·.2 ≠ 0)⟩, free := fr },
-             mem := none } := by
+             mem := none } ∧
+      fr.getD [] = d2.free.getD [] ++ m2.flpool.flatMap blockBytes := by
   unfold storeClose
   simp only [h1, h2]
   unfold flFlush
   split
-  · exact ⟨d2.free, rfl⟩
-  · exact ⟨_, rfl⟩
+  · rename_i he
+    refine ⟨d2.free, rfl, ?_⟩
+    rw [List.isEmpty_iff.mp he]
+    simp
+  · exact ⟨_, rfl, rfl⟩
 
 /-! ### the reopen step -/
 
 section
 variable {c : Cfg} {U : List (Bytes × Bytes)} {s : SState} {spec : Spec} {n B : Nat}
 
-theorem step_reopen (hc : c.Legal) (hU : Univ c.kind U) (hI : Inv c U s spec n B) (hX : XInv c s)
+/-- the reopen step with everything exposed: the fully flushed state `(m2, d2)` Close reaches, how the
+    reopened state relates to it (`Reopened`), and what became of the freelist -/
+theorem step_reopen_full (hc : c.Legal) (hU : Univ c.kind U) (hI : Inv c U s spec n B) (hX : XInv c s)
     (hn : n < 1073741824) (hB : B < two31) (order : List Nat) (us : Bool) :
     ∃ m1 d1 m2 d2 m' d', priFlush s.m s.d = some (m1, d1) ∧
       idxFlush m1 d1 (fixOrder order s.m.inext.keys) = (m2, d2) ∧
@@ -40,9 +46,12 @@ theorem step_reopen (hc : c.Legal) (hU : Univ c.kind U) (hI : Inv c U s spec n B
       Inv c U ⟨s.cfg, m', d'⟩ spec n B ∧ XInv c ⟨s.cfg, m', d'⟩ ∧
       (∀ b, idxRecords m' d' b = idxRecords s.m s.d b) ∧
       (∀ blk k v, priGet s.m s.d blk = .got k v → priGet m' d' blk = .got k v) ∧
-      (∀ b, (m'.buckets.get? b).getD 0 = (m2.buckets.get? b).getD 0) := by
+      (∀ b, (m'.buckets.get? b).getD 0 = (m2.buckets.get? b).getD 0) ∧
+      Reopened m2 d2 m' d' ∧ m'.flpool = [] ∧
+      d'.free = some (d2.free.getD [] ++ m2.flpool.flatMap blockBytes) ∧ d'.freeGc = d2.freeGc ∧
+      d'.snap = none := by
   obtain ⟨m1, d1, m2, d2, p1, i1, hI2, hX2, hin, hpn, _, hR, hP⟩ := flushBoth_inv hU hI hX hn hB order
-  obtain ⟨fr, hcl⟩ := storeClose_eq p1 i1
+  obtain ⟨fr, hcl, hfr⟩ := storeClose_eq p1 i1
   have hcfg : s.cfg = c := hX.cfg
   have hIp : PInv m2 d2 := hI2.p
   have hIi : IInv m2 d2 := hI2.i
@@ -154,7 +163,8 @@ theorem step_reopen (hc : c.Legal) (hU : Univ c.kind U) (hI : Inv c U s spec n B
       rw [a2, a3, g1]
       exact ⟨rfl, (hIp.mh hk).2.1⟩
   obtain ⟨hI', hX'⟩ := reopen_inv hI2 hX2 hin hpn hr
-  refine ⟨m1, d1, m2, d2, _, _, p1, i1, ?_, by rw [hcfg]; exact hI', by rw [hcfg]; exact hX', ?_, ?_, q3⟩
+  refine ⟨m1, d1, m2, d2, _, _, p1, i1, ?_, by rw [hcfg]; exact hI', by rw [hcfg]; exact hX', ?_, ?_, q3,
+    hr, rfl, ?_, ?_, rfl⟩
   · unfold stepS
     simp only [hcl, e5, hcfg, o1]
   · intro b
@@ -162,6 +172,25 @@ theorem step_reopen (hc : c.Legal) (hU : Univ c.kind U) (hI : Inv c U s spec n B
     exact hR b
   · intro blk k v hg
     exact hr.priGet hIp hpn (hP blk k v hg)
+  · show some (d5.free.getD []) = _
+    rw [← hfr, ← e5]
+    cases us <;> rfl
+  · show d5.freeGc = d2.freeGc
+    rw [← e5]
+    cases us <;> rfl
+
+theorem step_reopen (hc : c.Legal) (hU : Univ c.kind U) (hI : Inv c U s spec n B) (hX : XInv c s)
+    (hn : n < 1073741824) (hB : B < two31) (order : List Nat) (us : Bool) :
+    ∃ m1 d1 m2 d2 m' d', priFlush s.m s.d = some (m1, d1) ∧
+      idxFlush m1 d1 (fixOrder order s.m.inext.keys) = (m2, d2) ∧
+      stepS s (.reopen order us) = (⟨s.cfg, m', d'⟩, .gc) ∧
+      Inv c U ⟨s.cfg, m', d'⟩ spec n B ∧ XInv c ⟨s.cfg, m', d'⟩ ∧
+      (∀ b, idxRecords m' d' b = idxRecords s.m s.d b) ∧
+      (∀ blk k v, priGet s.m s.d blk = .got k v → priGet m' d' blk = .got k v) ∧
+      (∀ b, (m'.buckets.get? b).getD 0 = (m2.buckets.get? b).getD 0) := by
+  obtain ⟨m1, d1, m2, d2, m', d', h1, h2, h3, h4, h5, h6, h7, h8, _⟩ :=
+    step_reopen_full hc hU hI hX hn hB order us
+  exact ⟨m1, d1, m2, d2, m', d', h1, h2, h3, h4, h5, h6, h7, h8⟩
 
 end
 
